@@ -12,6 +12,11 @@ CONSTANTS
   HistClients = {}
   HistOutcomes = {}
   Design = "asks"
+  MaxLat = 2
+  CanonOuts = {}
+  ConfSets = {}
+  OtherSets = {}
+  RefKind = "att"
   BaseOutcomes = {"accept", "reject", "treject", "malformed", "slowok", "late", "hang"}
 INVARIANTS Emit
 CHECK_DEADLOCK FALSE
